@@ -176,6 +176,23 @@ def run(ctx):
                         res.count("submit:mined_in_unvalidated_head")
                 elif sub < 0.5:
                     take = [t for t in before if rng.random() < 0.5 and valid_at(cm.coinstate, t)]
+                    # the extending block may also carry a *different* spend of an output that a pending transaction spends
+                    # (mined elsewhere): the pending one is then invalid at the new head although it is not in the block
+                    victims = [t for t in before if t not in take and valid_at(cm.coinstate, t)
+                               and t.inputs[0].output_reference in utxo
+                               and utxo[t.inputs[0].output_reference].public_key.public_key in keys.pks
+                               and utxo[t.inputs[0].output_reference].value > 0]
+                    if victims and rng.random() < 0.6:
+                        a = rng.choice(victims)
+                        r0 = a.inputs[0].output_reference
+                        taken_refs = {i.output_reference for t in take for i in t.inputs}
+                        if r0 not in taken_refs:
+                            for pay_to in range(5):
+                                rival = chain.make_tx(keys, utxo, [r0], [(utxo[r0].value, pay_to)])
+                                if rival.hash() != a.hash():
+                                    take = take + [rival]
+                                    res.count("extension_mines_a_rival_of_a_pending_spend")
+                                    break
                     blk = tree.extend(head, txs=take)
                     mined_txs += take
                     kind = "extend"
